@@ -5263,6 +5263,12 @@ class Arc(Curve):
         if abs(dot) <= 1e-12 * (uu + vv):
             return
         t = atan2(2.0 * dot, uu - vv) / 2.0
+        # Both t and t -+ tau/4 restore perpendicular radii (the second one swaps their roles). Take the smaller
+        # turn so that rx, ry and the rotation stay the ones the arc had.
+        if t > tau / 8.0:
+            t -= tau / 4.0
+        elif t <= -tau / 8.0:
+            t += tau / 4.0
         cos_t = cos(t)
         sin_t = sin(t)
         self.prx = Point(
